@@ -414,6 +414,17 @@ def unchanged(old, s):
     return both(same_text(s._edit_text, old._edit_text), s._edit_pos == old._edit_pos, len(emits(s.trace)) == 0)
 
 
+def edits_text(old, key):
+    """The keys that change the text in state `old`: insertions, backspace and delete with something to delete."""
+    t, p = old._edit_text, old._edit_pos
+    n = tlen(t)
+    cmd = command_of(key)
+    ins = either(valid_char_of(old, key), both(text_eq(key, "tab"), old.allow_tab), both(text_eq(key, "enter"), old.multiline))
+    move = either(cmd == Command.LEFT, cmd == Command.RIGHT)
+    return either(ins, both(neg(move), text_eq(key, "backspace"), p > 0),
+                  both(neg(move), neg(text_eq(key, "backspace")), text_eq(key, "delete"), p < n))
+
+
 def handled_by_reference_editor(old, key):
     """The keys the reference editor uses in state `old` (everything else is handed back)."""
     t, p = old._edit_text, old._edit_pos
@@ -457,6 +468,12 @@ class edit_keypress(_EditBase):
         return None if bool(handled_by_reference_editor(old, a.key)) else a.key
 
     def effects(old, s, a, result):
+        # callee use: the events of this call, so that the clauses below are assumed about a trace that has them —
+        # an editing key (insertion, backspace, delete) emits 'change' then 'postchange'; a cursor move or an unused key nothing
+        t, p = old._edit_text, old._edit_pos
+        if bool(edits_text(old, a.key)):
+            t2 = s.fields["_edit_text"]
+            s.trace.extend([("_emit", "change", (t2,), t, p), ("_emit", "postchange", (t,), t2, s.fields["_edit_pos"])])
         # ghost: the state the reference step leaves behind (the leading-zero loops of the numeric variants start from it)
         s.trace.append(("ref-step", s.fields["_edit_text"], s.fields["_edit_pos"]))
 
@@ -658,7 +675,8 @@ class int_keypress:
             mid_t, mid_p = ref_step_state(s.trace)
             yield "no-zero-left-in-front-of-the-cursor", no_zero_left_of_cursor(s._edit_text, s._edit_pos)
             yield "only-leading-zeros-left-of-the-cursor-removed-from-the-reference-step", zeros_stripped(mid_t, mid_p, s._edit_text, s._edit_pos)
-        yield "digits-only-stays-digits-only", implies(all_in(old._edit_text, is_digit), all_in(s._edit_text, is_digit))
+        # tab / enter insertion is switched off by IntEdit's constructor (allow_tab = multiline = False)
+        yield "digits-only-stays-digits-only", implies(both(all_in(old._edit_text, is_digit), neg(old.allow_tab), neg(old.multiline)), all_in(s._edit_text, is_digit))
 
 
 # ------------------------------------------------------------------------------------------------ NumEdit (urwid/numedit.py)
@@ -743,3 +761,47 @@ class num_valid_char:
 
 
 VALID["NumEdit"] = num_valid_char
+
+
+def in_alphabet(s, t):
+    """Every character of t belongs to the alphabet, apart from a minus sign at offset 0 when negatives are allowed."""
+    st = cur()
+    j = z3.Int(st.fresh_name("q"))
+    c = t.raw(j)
+    ok = z3.Or(_ALLOWED_HAS(s._allowed.e, CHAR_UPPER(c)), z3.And(j == 0, c == MINUS().e, V._zb(s._allow_negative)))
+    return mk_bool(z3.ForAll([j], z3.Implies(z3.And(0 <= j, j < V._z(tlen(t))), ok)))
+
+
+@contract(NE + "NumEdit.keypress", property="C10")
+class num_keypress:
+    self_shape = NUMEDIT
+    invariant = staticmethod(RI)
+    globals_ = ENC
+    replayable = False
+    inline = _EditBase.inline
+    havoc = _EditBase.havoc
+    params = dict(size=Tup(Int), key=Text("str"))
+    raises = ()
+    modifies = ("_edit_text", "_edit_pos", "highlight", "pref_col_maxcol")
+    missing_field = edit_keypress.missing_field
+    loops = {0: STRIP_LOOP}
+
+    def requires(s, a):
+        return edit_keypress.requires(s, a)
+
+    def ensures(old, s, a, result):
+        handled = is_none(result)
+        yield "handled-exactly-the-keys-the-reference-editor-uses", handled == bool(handled_by_reference_editor(old, a.key))
+        if not handled:
+            yield "unused-key/returned-unchanged", result is a.key
+            yield "unused-key/nothing-edited", both(same_text(s._edit_text, old._edit_text), s._edit_pos == old._edit_pos)
+        else:
+            mid_t, mid_p = ref_step_state(s.trace)
+            if old._trim_leading_zeros:
+                yield "no-zero-left-in-front-of-the-cursor", no_zero_left_of_cursor(s._edit_text, s._edit_pos)
+                yield "only-leading-zeros-left-of-the-cursor-removed-from-the-reference-step", zeros_stripped(mid_t, mid_p, s._edit_text, s._edit_pos)
+            else:
+                yield "reference-step-left-as-it-is", both(same_text(s._edit_text, mid_t), s._edit_pos == mid_p)
+        # tab / enter insertion is switched off by NumEdit's constructor (allow_tab = multiline = False)
+        yield "alphabet-kept-apart-from-one-leading-minus", implies(both(in_alphabet(old, old._edit_text), neg(old.allow_tab), neg(old.multiline)),
+                                                                    in_alphabet(s, s._edit_text))
